@@ -26,8 +26,14 @@ MANUAL = {
     "34f5bf6": [("stix2/markings/utils.py", "            index = '[{0}]'.format(idx)", "            index = '[{0}]'.format(value.index(item))")],
     "7bc341e": [("stix2/base.py", "                if isinstance(ext, collections.abc.Mapping) and \\\n                        ext.get(\"extension_type\")",
                  "                if ext.get(\"extension_type\")")],
-    "0bed2f3": [("stix2/parsing.py", "        if not isinstance(extensions, collections.abc.Mapping):\n            extensions = {}\n", "")],
+    "0bed2f3": [("stix2/parsing.py", "        if version == \"2.0\" or not isinstance(extensions, collections.abc.Mapping):\n", "        if version == \"2.0\":\n")],
     "161f126": [("stix2/patterns.py", "if not _BARE_PATH_STEP_RE.match(x) or x in _PATTERN_KEYWORDS:", 'if x.find("-") != -1 or x in _PATTERN_KEYWORDS:')],
+    "bcd4133": [("stix2/v21/common.py", "                    allow_custom=kwargs.get('allow_custom', False),\n                    interoperability=kwargs.get('interoperability', False),\n                    **defn\n",
+                 "                    interoperability=kwargs.get('interoperability', False),\n                    **defn\n"),
+                ("stix2/v21/common.py", "            if not allow_custom and value.has_custom:\n                raise CustomContentError(\"custom content encountered\")\n            return value, value.has_custom\n",
+                 "            return value, False\n")],
+    "6e9352a": [("stix2/utils.py", "            if ts.tzinfo is None or ts.tzinfo.utcoffset(ts) is None:\n", "            if False:\n"),
+                ("stix2/utils.py", "                ts = ts.astimezone(pytz.utc)\n        else:\n", "                pass\n        else:\n")],
     "27b0e09": [("stix2/markings/utils.py", "    if isinstance(value, collections.abc.Mapping):\n\n        for item in iterpath(value, path):",
                  "    if isinstance(value, dict):\n\n        for item in iterpath(value, path):")],
 }
